@@ -1,5 +1,6 @@
 import Glas.Props.C17
 import Glas.Props.C17Imports
+import Glas.Props.C17Graph
 #print axioms Glas.Props.C17.moduleName_spec
 #print axioms Glas.Props.C17.moduleName_other_ext
 #print axioms Glas.Props.C17.assignRoot_innermost
@@ -12,3 +13,5 @@ import Glas.Props.C17Imports
 #print axioms Glas.Props.C17Imports.transitive_invisible
 #print axioms Glas.Props.C17Imports.own_wins
 #print axioms Glas.Props.C17Imports.unique_candidate
+#print axioms Glas.Props.C17Graph.assemble_inv
+#print axioms Glas.Props.C17Graph.assemble_sound
